@@ -828,4 +828,12 @@ B('SD-fillna-limit-default', ['C14'], 'series.py', 'Series.fillna_forward',
 B('SD-window-step-default', ['C13'], 'frame.py', 'Frame._axis_window_items',
   'step: int = 1,', 'step: int = 0,', 'G.sibling-defaults', None)
 
+# ---------------------------------------------------------------------------------- HLoc offsets (C04, C05)
+B('HO-children-relative-offset', ['C05', 'C04'], 'index_level.py', 'IndexLevel.loc_to_iloc',
+  'levels.append((level_targets, next_depth, next_offset))', 'levels.append((level_targets, next_depth, level.offset))', 'I.offset-accumulation', 'IndexLevel.loc_to_iloc')
+B('HO-leaf-popped-offset', ['C05', 'C04'], 'index_level.py', 'IndexLevel.loc_to_iloc',
+  '                            offset=next_offset,', '                            offset=offset,', 'I.offset-accumulation', 'IndexLevel.loc_to_iloc')
+N('HO-accumulate-commuted', ['C05', 'C04'], 'index_level.py', 'IndexLevel.loc_to_iloc',
+  'next_offset = offset + level.offset', 'next_offset = level.offset + offset')
+
 VARIANTS = V
